@@ -59,8 +59,10 @@ theorem fullNeeded_cleared_only_by_close (A : DbAlg D) (s : CS D) (op : COp D)
         cases hh : k.hdr with
         | none => simp [hh, putSink, FS.set, h1] at h2
         | rejected => simp [hh, putSink, FS.set, h1] at h2
-        | full d ws v => cases v <;> simp [hh, putSink, FS.set, h1] at h2 ⊢
-        | inc ws => simp [hh, putSink, FS.set, h1] at h2 ⊢
+        | full d ws v => cases v <;> simp [hh, putSink, FS.set, h1, clearedBy] at h2 ⊢
+        | inc ws =>
+          have hfd : fullDue s.fs = true := by simp [fullDue, h1]
+          simp [hh, putSink, FS.set, h1, hfd] at h2 ⊢
   | closeRenameFails h =>
     simp only [stepOp, closeRenameFails] at h2
     cases hk : getSink s h with
@@ -75,7 +77,9 @@ theorem fullNeeded_cleared_only_by_close (A : DbAlg D) (s : CS D) (op : COp D)
         | none => simp [hh, putSink, FS.set, h1] at h2
         | rejected => simp [hh, putSink, FS.set, h1] at h2
         | full d ws v => cases v <;> simp [hh, putSink, FS.set, h1] at h2
-        | inc ws => simp [hh, putSink, FS.set, h1] at h2
+        | inc ws =>
+          have hfd : fullDue s.fs = true := by simp [fullDue, h1]
+          simp [hh, putSink, FS.set, h1, hfd] at h2
   | cancel h =>
     simp only [stepOp, cancel] at h2
     split at h2
@@ -104,26 +108,37 @@ theorem fullNeeded_cleared_only_by_close (A : DbAlg D) (s : CS D) (op : COp D)
       simp [this, h1] at h2
     · simp [h1] at h2
 
-/-- Close never installs an incremental snapshot while a full one is required -/
+/-- Close never installs an incremental snapshot while a full one is due (flag or empty store) -/
 theorem close_inc_needs_no_full (s : CS D) (h : Nat) (k : Sink D) (wals : List Nat)
-    (hk : getSink s h = some k) (hi : k.hdr = .inc wals) (hok : (close true s h).2 = "ok") (ho : k.opened = true) :
-    s.fs.fullNeeded = false := by
+    (hk : getSink s h = some k) (hi : k.hdr = .inc wals) (hok : (close 2 s h).2 = "ok") (ho : k.opened = true) :
+    fullDue s.fs = false := by
   simp only [close, hk, ho, Bool.not_true, Bool.false_eq_true, if_false, hi] at hok
-  cases hf : s.fs.fullNeeded with
+  cases hf : fullDue s.fs with
   | false => rfl
   | true => simp [hf] at hok
 
+/-- … and it leaves the requirement alone -/
+theorem close_inc_keeps_requirement (s : CS D) (h : Nat) (k : Sink D) (wals : List Nat)
+    (hk : getSink s h = some k) (hi : k.hdr = .inc wals) (ho : k.opened = true) :
+    (close 2 s h).1.fs.fullNeeded = s.fs.fullNeeded := by
+  simp only [close, hk, ho, Bool.not_true, Bool.false_eq_true, if_false, hi]
+  split <;> simp [putSink, FS.set]
+
+/-- a requirement raised after the sink of a full snapshot was created survives its Close -/
+theorem close_full_keeps_later_requirement (s : CS D) (h : Nat) (k : Sink D)
+    (hk : getSink s h = some k) (ho : k.opened = true) (hf : s.fs.fullNeeded = true)
+    (hlater : k.tok ≠ some s.fnGen) : (close 2 s h).1.fs.fullNeeded = true := by
+  simp only [close, hk, ho, Bool.not_true, Bool.false_eq_true, if_false]
+  cases hh : k.hdr with
+  | none => simp [putSink, FS.set, hf]
+  | rejected => simp [putSink, FS.set, hf]
+  | full d ws v => cases v <;> simp [putSink, FS.set, hf, clearedBy, hlater]
+  | inc ws =>
+    have hfd : fullDue s.fs = true := by simp [fullDue, hf]
+    simp [putSink, FS.set, hf, hfd]
 
 /-! ### catalog invariant -/
 
-/-- ordering key of a snapshot directory: (term, index, name) -/
-def keyOf (n : Nat) (d : Dir D) : Nat × Nat × Nat :=
-  match d.mt with
-  | some m => (m.term, m.index, n)
-  | none => (0, 0, n)
-
-def keyLe (a b : Nat × Nat × Nat) : Prop :=
-  a.1 < b.1 ∨ (a.1 = b.1 ∧ (a.2.1 < b.2.1 ∨ (a.2.1 = b.2.1 ∧ a.2.2 ≤ b.2.2)))
 
 /-- a fully written snapshot directory -/
 structure Complete (n : Nat) (d : Dir D) : Prop where
@@ -282,9 +297,9 @@ theorem finalDir_facts {s : CS D} (hs : CatInv s) {h : Nat} {k : Sink D} (hk : g
 
 /-- installing the final directory of the (only) open sink -/
 theorem CatInv.install {s : CS D} (hs : CatInv s) {h : Nat} {k : Sink D} (hk : getSink s h = some k)
-    (ho : k.opened = true) {fd : Dir D} (hf : finalDir k = some fd) (b : Bool) (sinks : List (Nat × Sink D))
+    (ho : k.opened = true) {fd : Dir D} (hf : finalDir k = some fd) (b : Bool) (sinks : List (Nat × Sink D)) (g : Nat)
     (hsinks : ∀ h' k', getSink ({ fs := s.fs, sinks := sinks } : CS D) h' = some k' → k'.opened = true → False) :
-    CatInv { fs := { s.fs.set k.name (some fd) with fullNeeded := b }, sinks := sinks } := by
+    CatInv { fs := { s.fs.set k.name (some fd) with fullNeeded := b }, sinks := sinks, fnGen := g } := by
   obtain ⟨ft, fc, fk, fb⟩ := finalDir_facts hs hk ho hf
   have hold := (hs.sinkTmp h k hk ho).2
   have hlive : ∀ n d, Live ({ s.fs.set k.name (some fd) with fullNeeded := b } : FS D) n d ↔
@@ -334,7 +349,8 @@ theorem no_open_nil (fs : FS D) : ∀ h' k', getSink ({ fs := fs, sinks := [] } 
 
 /-- with no sink left, only the listed set and the plan file matter -/
 theorem CatInv.no_sinks {s : CS D} (hs : CatInv s) {fs : FS D}
-    (hl : ∀ n d, Live fs n d ↔ Live s.fs n d) (hp : fs.plan = none) : CatInv { fs := fs, sinks := [] } := by
+    (hl : ∀ n d, Live fs n d ↔ Live s.fs n d) (hp : fs.plan = none) (g : Nat) :
+    CatInv { fs := fs, sinks := [], fnGen := g } := by
   apply hs.of_same_live hl hp
   intro h k hk; simp [getSink] at hk
 
@@ -471,16 +487,14 @@ theorem step_inv (A : DbAlg D) {s : CS D} (hs : CatInv s) (op : COp D) (hok : Op
             have hf : finalDir k = some { tmp := false, mt := some k.mt, db := some d, crc := some d, wals := ws } := by
               simp [finalDir, hh]
             simp only [hf]
-            exact hs.install hk ho hf false _ (no_open_after_close hs hk ho _ rfl)
+            exact hs.install hk ho hf _ _ _ (no_open_after_close hs hk ho _ rfl)
         | inc ws =>
-          simp only [Bool.true_and]
-          cases hfn : s.fs.fullNeeded with
-          | true => simp only [if_true]; exact hs.drop_sink hk ho none (fun d e => by cases e) _ rfl
-          | false =>
-            simp only [Bool.false_eq_true, if_false]
-            have hf : finalDir k = some { tmp := false, mt := some k.mt, wals := ws } := by simp [finalDir, hh]
+          simp only
+          split
+          · exact hs.drop_sink hk ho none (fun d e => by cases e) _ rfl
+          · have hf : finalDir k = some { tmp := false, mt := some k.mt, wals := ws } := by simp [finalDir, hh]
             simp only [hf]
-            exact hs.install hk ho hf false _ (no_open_after_close hs hk ho _ rfl)
+            exact hs.install hk ho hf _ _ _ (no_open_after_close hs hk ho _ rfl)
   | closeRenameFails h =>
     simp only [stepOp, closeRenameFails]
     cases hk : getSink s h with
@@ -497,9 +511,9 @@ theorem step_inv (A : DbAlg D) {s : CS D} (hs : CatInv s) (op : COp D) (hok : Op
         | full d ws v => cases v <;> exact hs.close_sink hk ho _ rfl
         | inc ws =>
           simp only
-          cases hfn : s.fs.fullNeeded with
-          | true => simp only [if_true]; exact hs.drop_sink hk ho none (fun d e => by cases e) _ rfl
-          | false => simp only [Bool.false_eq_true, if_false]; exact hs.close_sink hk ho _ rfl
+          split
+          · exact hs.drop_sink hk ho none (fun d e => by cases e) _ rfl
+          · exact hs.close_sink hk ho _ rfl
   | cancel h =>
     simp only [stepOp, cancel]
     cases hk : getSink s h with
@@ -521,7 +535,7 @@ theorem step_inv (A : DbAlg D) {s : CS D} (hs : CatInv s) (op : COp D) (hok : Op
         | inc ws => exact hs.drop_sink hk ho none (fun d e => by cases e) _ rfl
   | setFull =>
     simp only [stepOp, setFull]
-    refine CatInv.of_same_live (t := { s with fs := { s.fs with fullNeeded := true } }) hs
+    refine CatInv.of_same_live (t := { s with fs := { s.fs with fullNeeded := true }, fnGen := s.fnGen + 1 }) hs
       (fun n d => Iff.rfl) hs.noPlan ?_
     intro h k hk ho
     exact ⟨hk, (hs.sinkTmp h k hk ho).2⟩
@@ -530,26 +544,26 @@ theorem step_inv (A : DbAlg D) {s : CS D} (hs : CatInv s) (op : COp D) (hok : Op
     have hc : check A s.fs = .ok (rmTmpDirs { s.fs with planTmp := false }) := by
       simp [check, hs.noPlan]
     simp only [hc]
-    exact hs.no_sinks (fun n d => live_rmTmpDirs _ n d) hs.noPlan
+    exact hs.no_sinks (fs := rmTmpDirs { s.fs with planTmp := false }) (fun n d => live_rmTmpDirs _ n d) hs.noPlan _
   | crashClose h c =>
     simp only [stepOp, crashClose]
     cases hk : getSink s h with
-    | none => exact hs.no_sinks (fun n d => Iff.rfl) hs.noPlan
+    | none => exact hs.no_sinks (fun n d => Iff.rfl) hs.noPlan _
     | some k =>
       obtain ⟨ho, hinc⟩ := hok k hk
       have hold := (hs.sinkTmp h k hk ho).2
       simp only
       cases hf : finalDir k with
-      | none => cases c <;> exact hs.no_sinks (fun n d => Iff.rfl) hs.noPlan
+      | none => cases c <;> exact hs.no_sinks (fun n d => Iff.rfl) hs.noPlan _
       | some fd =>
         cases c with
-        | renamed => exact hs.install hk ho hf s.fs.fullNeeded [] (no_open_nil s.fs)
+        | renamed => exact hs.install hk ho hf s.fs.fullNeeded [] _ (no_open_nil s.fs)
         | metaWritten =>
-          exact hs.no_sinks (fun n d => live_set_tmp hold (fun d e => by cases e; rfl) n d) hs.noPlan
+          exact hs.no_sinks (fun n d => live_set_tmp hold (fun d e => by cases e; rfl) n d) hs.noPlan _
         | filesInPlace =>
-          exact hs.no_sinks (fun n d => live_set_tmp hold (fun d e => by cases e; rfl) n d) hs.noPlan
+          exact hs.no_sinks (fun n d => live_set_tmp hold (fun d e => by cases e; rfl) n d) hs.noPlan _
         | walDirMoved =>
-          exact hs.no_sinks (fun n d => live_set_tmp hold (fun d e => by cases e; rfl) n d) hs.noPlan
+          exact hs.no_sinks (fun n d => live_set_tmp hold (fun d e => by cases e; rfl) n d) hs.noPlan _
   | reap nn => exact hok.elim
 
 
